@@ -369,7 +369,10 @@ def execute(env, sc):
     if healthy:
         good = False
         for attempt in range(3):
-            m = fetch(env, okpath, timeout=15)
+            try:
+                m = fetch(env, okpath, timeout=15)
+            except OSError:
+                m = None            # not listening: dead (found by health_problems() below) or not served
             if m is not None and m.status == 200 and m.complete:
                 good = True
                 break
